@@ -3,6 +3,7 @@ from .enc import Table
 from . import ops_dp
 from . import ops_branch
 from . import ops_ls
+from . import ops_block
 
 TABLE = Table()
 ops_dp.build_arm(TABLE)
@@ -10,6 +11,7 @@ ops_dp.build_thumb(TABLE)
 ops_branch.build(TABLE)
 ops_ls.build_arm(TABLE)
 ops_ls.build_thumb(TABLE)
+ops_block.build(TABLE)
 
 
 def rows_for(cls_name):
